@@ -119,6 +119,7 @@ def run (specs : List Spec) (acts : List Act) : St := acts.foldl (step specs) {}
 inductive Ev
   | msg (wait : Bool) (m : Msg)
   | flood (m : Msg) (count : Nat)  -- `count` copies of m, each delivered to a quiescent machine
+  | busy (m : Msg) (count : Nat)   -- ids m.id … m.id+count-1 delivered while the loop is inside `Receive`
   | release
   | hold
   | unhold
@@ -129,6 +130,7 @@ def nMsgs : List Ev → Nat
   | [] => 0
   | .msg _ _ :: r => nMsgs r + 1
   | .flood _ c :: r => nMsgs r + c
+  | .busy _ c :: r => nMsgs r + c
   | _ :: r => nMsgs r
 
 /-- actions that bring the machine to quiescence whatever its state (disabled ones stutter) -/
@@ -139,8 +141,15 @@ def settleActs (nStates nMsg : Nat) : List Act :=
 def settleOne (nStates : Nat) : List Act :=
   (List.replicate (nStates + 1) [Act.recv, .initAuto, .tick, .done]).flatten
 
+/-- messages of a busy flood -/
+def busyMsgs (m : Msg) (count : Nat) : List Msg :=
+  (List.range count).map fun i => ⟨m.typ, m.id + i⟩
+
 def expand (nStates nMsg : Nat) : List Ev → List Act
   | [] => [.cancel, .ctxDone]
+  | .busy m c :: r =>
+    settleActs nStates nMsg ++ ((busyMsgs m c).map fun x => Act.deliver x :: settleOne nStates).flatten
+      ++ expand nStates nMsg r
   | .flood m c :: r =>
     settleActs nStates nMsg ++ (List.replicate c (Act.deliver m :: settleOne nStates)).flatten
       ++ expand nStates nMsg r
@@ -157,6 +166,7 @@ def deterministic : List Ev → Bool
   | [] => true
   | .msg w _ :: r => w && deterministic r
   | .hold :: _ => false
+  | .busy _ _ :: _ => false
   | .unhold :: r => deterministic r
   | _ :: r => deterministic r
 
@@ -219,6 +229,7 @@ def deliveredOf : List Ev → List Msg
   | [] => []
   | .msg _ m :: r => m :: deliveredOf r
   | .flood m c :: r => List.replicate c m ++ deliveredOf r
+  | .busy m c :: r => busyMsgs m c ++ deliveredOf r
   | _ :: r => deliveredOf r
 
 end KeepVerif.C15
